@@ -27,12 +27,17 @@ func TestRestoreContinue(t *testing.T) {
 	rapid.Check(t, func(t *rapid.T) {
 		era := statekit.Era(rapid.SampledFrom([]int{0, 1, 1, 2, 2}).Draw(t, "era"))
 		prof := statekit.DrawProfile(t, era)
+		prof.RecordSponsorStart = statekit.Far
+		statekit.CRFocusProfile(t, &prof)
 		a := statekit.New(prof)
 		defer a.Close()
 		g := statekit.NewGen(a)
 		g.DrawLazy(t)
+		g.UniformKinds = true
 		if era >= statekit.EraCR {
 			g.AddKinds(statekit.CRKinds())
+			// proposal life cycles, a staffed second election
+			statekit.CRFocusKinds(g)
 		}
 		a.StartAt(prof.VoteStart - 1)
 		rc := &restoreCase{Profile: prof, Era: era.String()}
@@ -46,6 +51,24 @@ func TestRestoreContinue(t *testing.T) {
 		}
 		end := last + uint32(rapid.IntRange(2, 30).Draw(t, "end"))
 		saveAt := prof.VoteStart + uint32(rapid.IntRange(1, int(end-prof.VoteStart)-1).Draw(t, "saveat"))
+		if era >= statekit.EraCR {
+			// half of the CR histories save right before / at / after a committee
+			// change (the first or the second one) and run past it
+			first, second := prof.CRCommitteeStart, prof.CRCommitteeStart+prof.DutyPeriod
+			switch rapid.IntRange(0, 3).Draw(t, "savemode") {
+			case 0:
+				saveAt = first - 2 + uint32(rapid.IntRange(0, 3).Draw(t, "around-first-change"))
+				if end <= saveAt+1 {
+					end = saveAt + 2
+				}
+			case 1:
+				saveAt = second - 2 + uint32(rapid.IntRange(0, 3).Draw(t, "around-second-change"))
+				end = second + uint32(rapid.IntRange(1, 8).Draw(t, "past-second-change"))
+				if end <= saveAt {
+					end = saveAt + 1
+				}
+			}
+		}
 		rc.SaveAt, rc.End = saveAt, end
 		advance := func(k *statekit.Kit, to uint32) bool {
 			for k.Height < to {
@@ -67,6 +90,13 @@ func TestRestoreContinue(t *testing.T) {
 			return
 		}
 		pendingOrCanceled := len(a.Arbiters.State.PendingProducers)+len(a.Arbiters.State.CanceledProducers) > 0
+		sessAtSave := a.Committee.GetState().CurrentSession
+		if n := a.NextCommitteeChange(); n != 0 && n-saveAt <= 2 {
+			vk.Class("restore/saved-within-two-blocks-before-a-committee-change")
+		}
+		if a.Committee.LastCommitteeHeight == saveAt && saveAt != 0 {
+			vk.Class("restore/saved-at-a-committee-change")
+		}
 		saved, err := a.Save()
 		if err != nil {
 			vk.Report(t, "C23:restore:save-failed", err.Error(), render())
@@ -102,6 +132,12 @@ func TestRestoreContinue(t *testing.T) {
 		}
 		if !compareKits(t, "continue", a, b, rc) {
 			return
+		}
+		if a.Committee.GetState().CurrentSession != sessAtSave {
+			vk.Class("restore/committee-change-after-the-restart")
+		}
+		if len(a.Committee.GetAllProposals()) > 0 {
+			vk.Class("restore/with-proposals")
 		}
 		key, _ := json.Marshal(rc)
 		vk.Case("restore/era-"+rc.Era, pendingOrCanceled && saveAt < end, key, render)
